@@ -23,7 +23,11 @@ LEVEL_TEXT = ("Coq theorems over an exact-rational model of the criterion famili
               "is refuted on separately named old_ definitions as a regression witness; so is the former caching of the target flags in the tfreq setter (old_pau_stale / old_mogs_stale), "
               "while the current code is proved to answer a call after an in-place update of the target array from the current targets, after any history, and that answer is the count-based definition. The model is tied to the code by evaluating it inside "
               "Coq against latentfn/evalfn/evaluate/nlatent of all 61 evaluable concrete problem classes on generated data. "
-              "Kernel expressions regenerated from the source on every run (Gen/C05_Kernel.v, 178 definitions: guard and normalisation of all 39 "
+              "Optimal haploid value tables for ANY number of parents: the cross map of k parents is exactly the strictly increasing / non-decreasing index tuples of length k "
+              "(C05_cross_map_tuples; the pair map for k = 2), an entry of a row is at least ploidy x the block sum of ANY phase of ANY parent of the row - first, last or in between "
+              "(C05_ohv_every_parent_counts), and the table on a cross map is the regenerated expression of _calc_ohvmat on the block values of every phase and every parent of the row "
+              "(C05_kernel_ohv_table); the OHV factories are evaluated in Coq for 1, 2, 3 and 4 parents, unique parents both ways, every chunk size. "
+              "Kernel expressions regenerated from the source on every run (Gen/C05_Kernel.v, 179 definitions: guard and normalisation of all 39 "
               "vector-encoded latent functions, sign / 1/k coefficient of every linear, quadratic, L1 and family body, order of the latent blocks, the "
               "binary64 frequency quotient with its threshold and flag algebra for PAU/MOGS and what each target-flag property computes on access (the tfreq setter may store the array only), OPV / "
               "genotype-builder coefficients and slice, evalfn, the reporting path SelectionProblem._evaluate (branch test, the table key -> element of the evalfn triple of the vector "
@@ -54,7 +58,12 @@ RULE = ("case = (criterion family, candidate data on a dyadic grid, selected mul
         "(population, taxon permutation, factory) for the factory clause (the usefulness-criterion constructors from_pgmat_gpmod and from_pgmat_gpmod_xmap "
         "with every variance-matrix factory of pybrops.model.vmat.fcty they accept — two-way, dihybrid, three-way, four-way — on parents with "
         "distinct breeding values, contributions written down in the harness; the EMBV matrix factory with nrep / nprogeny as scalars and as per-taxon arrays with "
-        "unequal entries, sorted both ways, int32/int64; the EMBV problem factories with SelfCross, TwoWayCross and TwoWayDHCross on homozygous and segregating parents; "
+        "unequal entries, sorted both ways, int32/int64; the EMBV problem factories with EVERY mating protocol of pybrops.breed.prot.mate (self, two-, three-, four-way, with and without doubled haploids: "
+        "nparent 1..4, enumerated at run time, fail closed) and unique_parents both ways on homozygous and segregating parents; the OHV factories with nparent 1, 2, 3, 4 x unique_parents "
+        "both ways on populations chosen so that every column of the cross map matters (leaving any one parent out lowers some entry), plus populations whose cross map exceeds the "
+        "factories' chunk of 1024 rows, plus direct calls of _calc_ohvmat with mem in {None, 1, 2, 3, 5, rows-1, rows, rows+1, 1024} on the factory's cross map and on a cross map "
+        "of unsorted rows / unsorted parents / repeats - every table compared with ploidy x sum over blocks of the best block value among all phases of all parents of the row, "
+        "recomputed from the raw haplotypes; "
         "from_numpy of the weighted classes), or the class / factory-method / variance-factory enumeration cases, or "
         "(concrete class, data, 2..5 candidates, nobj in {1, 2, 3, nlatent}, (nineqcv, neqcv) cycled over none / equality only / inequality only / both with "
         "different widths / both with equal widths, transformations of trans.py or harness-defined ones of any width with keyword arguments, weights of both signs, "
@@ -918,7 +927,7 @@ def gen_pop(rng, homozygous=False, n=None):
     t = rng.choice([1, 2, 2])
     h0 = [[rng.randint(0, 1) for _ in range(p)] for _ in range(n)]
     h1 = h0 if homozygous else [[rng.randint(0, 1) for _ in range(p)] for _ in range(n)]
-    labels = rng.sample(range(10, 40), n)                     # taxa names in no particular order
+    labels = rng.sample(range(10, 40 if n <= 30 else 10 + 2 * n), n)     # taxa names in no particular order
     grp = [rng.choice([1, 2, 3]) for _ in range(n)]           # family labels, not sorted
     chrgrp = [c + 1 for c in range(nchr) for _ in range(per[c])]
     genpos = []
@@ -953,7 +962,16 @@ def _distinct_bv(pop):
     X, u, beta, gebv, f = pop_truth(pop)
     return len({tuple(r) for r in gebv.tolist()}), len({r[0] for r in gebv.tolist()})
 
-EMBV_PROT = {"SelfCross": 1, "TwoWayCross": 2, "TwoWayDHCross": 2}     # mating protocol -> number of parents
+# mating protocol -> number of parents (every protocol class of pybrops.breed.prot.mate; the enumeration case fails on a new one)
+EMBV_PROT = {"SelfCross": 1, "TwoWayCross": 2, "TwoWayDHCross": 2, "ThreeWayCross": 3, "ThreeWayDHCross": 3, "FourWayCross": 4, "FourWayDHCross": 4}
+NPARENTS = (1, 2, 3, 4)            # numbers of parents the cross-map based factories (OHV, EMBV; UC through its variance factories) are driven with
+# (number of parents, unique parents, number of taxa): cross maps with more than 1024 rows - the chunk size hard-coded in the OHV factories
+OHV_BIG = [(2, False, 46), (2, True, 47), (3, False, 18), (3, True, 20), (4, False, 12), (4, True, 15), (1, True, 1030), (1, False, 1027)]
+
+def _xmap_rows(n, npar, unique):
+    """the cross map by its definition: every strictly increasing (unique parents) / non-decreasing index tuple, lexicographic"""
+    it = itertools.combinations(range(n), npar) if unique else itertools.combinations_with_replacement(range(n), npar)
+    return [list(v) for v in it]
 
 def _per_taxon(rng, n, choices, form=None):
     """an argument the library accepts as "scalar or per-taxon array": a scalar, or a list with UNEQUAL entries (n >= 2) whose
@@ -970,9 +988,41 @@ def _per_taxon(rng, n, choices, form=None):
     elif style < 0.7: v.sort(reverse=True)         # the first taxon has the most
     return v
 
-def gen_factory(rng, which, vf=None, form=None):
+def _ohv_sensitivity(pop, npar, unique):
+    """(number of cross-map columns that matter somewhere, number of (cross, column) pairs that matter) - with one block per chromosome"""
+    hap = numpy.array(pop["hap"], dtype=float); u = numpy.array(pop["u"], dtype=float); chrg = pop["chrgrp"]
+    n = hap.shape[1]
+    hv = numpy.stack([hap[:, :, [j for j in range(len(chrg)) if chrg[j] == c]] @ u[[j for j in range(len(chrg)) if chrg[j] == c], :] for c in sorted(set(chrg))], axis=2)   # (m,n,b,t)
+    val = lambda row: hv[:, row, :, :].max((0, 1)).sum(0)
+    cols, pairs = set(), 0
+    for row in _xmap_rows(n, npar, unique):
+        full = val(row)
+        for c in range(npar):
+            if numpy.any(val(row[:c] + row[c + 1:]) < full): cols.add(c); pairs += 1
+    return (len(cols), pairs)
+
+def gen_factory(rng, which, vf=None, form=None, npar=None, unique=None, big=None):
     homo = which in ("embv", "embvmat") and rng.random() < 0.4
     pop = gen_pop(rng, homozygous=homo)
+    if which in ("ohv", "embv"):
+        npar = npar or rng.choice(NPARENTS)
+        unique = (rng.random() < 0.5) if unique is None else unique
+        # enough taxa for several crosses of distinct parents; at most 5 (6 for OHV) so that four-way maps stay small
+        lo = min(npar + 1, 5) if unique else max(2, min(npar, 4))
+        pop = gen_pop(rng, homozygous=homo, n=rng.randint(lo, 5 if which == "embv" else 6))
+        if which == "ohv" and npar >= 2:
+            # prefer a population in which EVERY column of the cross map matters: many (cross, column) pairs where leaving that
+            # parent out lowers the optimal haploid value (a table built from some of the parents only then differs)
+            best = (_ohv_sensitivity(pop, npar, unique), pop)
+            for _ in range(20):
+                if best[0][0] == npar and best[0][1] >= 2 * npar: break
+                cand = gen_pop(rng, n=len(pop["labels"]))
+                sc = _ohv_sensitivity(cand, npar, unique)
+                if sc > best[0]: best = (sc, cand)
+            pop = best[1]
+    if which == "ohv" and big is not None:
+        npar, unique, nbig = OHV_BIG[big % len(OHV_BIG)]
+        pop = gen_pop(rng, n=nbig)
     if which in ("uc", "uc_xmap"):
         # enough taxa for the cross, and parents whose breeding values differ (a contribution-weighted mean then differs from a plain mean)
         vf = vf or rng.choice(sorted(UC_VMAT))
@@ -986,8 +1036,17 @@ def gen_factory(rng, which, vf=None, form=None):
     n, p, t = len(pop["labels"]), len(pop["chrgrp"]), len(pop["beta"])
     args = {"unscale": rng.random() < 0.5, "phased": rng.random() < 0.5}
     if which in ("gwgebv", "gwgebv_np"): args["alpha"] = rng.choice([0.0, 1.0, 2.0, 0.5])
-    if which in ("uc", "uc_xmap", "ohv"):
+    if which in ("uc", "uc_xmap"):
         args.update(nparent=2, unique=rng.random() < 0.5, nprogeny=rng.choice([5, 10]), pct=rng.choice([0.1, 0.25, 0.5]))
+    if which == "ohv":
+        nx = len(_xmap_rows(n, npar, unique))
+        # chunk sizes for direct calls of _calc_ohvmat (None = one chunk), around 1, the number of rows and the factories' 1024
+        mems = [None, 1, 2, 3, 5, max(1, nx - 1), nx, nx + 1, 1024] if big is None else [None, 1000, 1023, 1024, nx - 1, 7]
+        # a cross map handed over directly: rows in no particular order, parents of a row in no particular order, repeats allowed
+        rows = [[rng.randrange(n) for _ in range(npar)] for _ in range(rng.randint(2, 6))] + [rng.sample(range(n), npar) for _ in range(2) if n >= npar]
+        rng.shuffle(rows)
+        args.update(nparent=npar, unique=unique, mems=sorted(set(m for m in mems if m is None or m >= 1), key=lambda m: (m is not None, m or 0)), xmap=rows,
+                    xmap_mem=rng.choice([None, 1, 2, 3]), big=big is not None)
     if which in ("uc", "uc_xmap"):
         args.update(vf=vf, nparent=UC_VMAT[vf][0])
     if which == "uc_xmap":
@@ -999,9 +1058,9 @@ def gen_factory(rng, which, vf=None, form=None):
         args["nhaploblk"] = rng.randint(nchr, min(p, nchr + 2))
     if which == "gb": args["nbestfndr"] = rng.randint(1, n)
     if which == "embv":
-        prot = rng.choice(["SelfCross", "SelfCross", "TwoWayCross", "TwoWayDHCross"])
+        prot = rng.choice(sorted(k for k, v in EMBV_PROT.items() if v == npar))
         args.update(prot=prot, nparent=EMBV_PROT[prot], nmating=rng.choice([1, 1, 2]), nrep=rng.choice([1, 2, 3]), nprogeny=rng.choice([1, 2, 3]),
-                    unique=rng.random() < 0.5, seed=rng.randrange(2 ** 31), homozygous=homo)
+                    unique=unique, seed=rng.randrange(2 ** 31), homozygous=homo)
     if which == "embvmat":
         args.update(nrep=_per_taxon(rng, n, [1, 2, 3, 4], form), nprogeny=_per_taxon(rng, n, [1, 2, 3, 5], form), seed=rng.randrange(2 ** 31), homozygous=homo,
                     dtype=rng.choice(["int64", "int64", "int32"]))
@@ -1139,10 +1198,19 @@ def run_factory(case):
                     return {"ucmat": _arr(pr.ucmat), "xmap": _arr(pr.decn_space_xmap), "pvar": _arr(numpy.array([vm.mat[tuple(r)] for r in xm], dtype=float)),
                             "epgc_lib": [float(v) for v in vm.epgc]}
                 if which == "ohv":
-                    nx = n * (n - 1) // 2 if A["unique"] else n * (n + 1) // 2
+                    npar = A.get("nparent", 2)
+                    nx = len(_xmap_rows(n, npar, A["unique"]))
                     if nx == 0: return {"skip": True}
-                    pr = cls.from_pgmat_gpmod(2, A["nhaploblk"], A["unique"], g, gmod, **_space(enc, nx, nobj=t))
-                    return {"ohvmat": _arr(pr.ohvmat), "xmap": _arr(pr.decn_space_xmap), "bounds": _block_bounds(g, A["nhaploblk"])}
+                    pr = cls.from_pgmat_gpmod(npar, A["nhaploblk"], A["unique"], g, gmod, **_space(enc, nx, nobj=t))
+                    r = {"ohvmat": _arr(pr.ohvmat), "xmap": _arr(pr.decn_space_xmap), "bounds": _block_bounds(g, A["nhaploblk"])}
+                    # the table builder called directly (it is what every factory calls, with mem = 1024): every chunk size, on the
+                    # factory's own cross map and on a cross map supplied by the harness (unsorted rows, unsorted parents, repeats)
+                    hm = cls._calc_haplomat(g, gmod, A["nhaploblk"])
+                    xm = numpy.array(pr.decn_space_xmap)
+                    r["chunks"] = [{"mem": m, "ohvmat": _arr(cls._calc_ohvmat(hm.shape[0], hm, xm, m))} for m in A.get("mems", [])]
+                    if A.get("xmap"):
+                        r["custom"] = _arr(cls._calc_ohvmat(hm.shape[0], hm, numpy.array(A["xmap"], dtype=int), A.get("xmap_mem")))
+                    return r
                 if which == "opv":
                     pr = cls.from_pgmat_gpmod(A["nhaploblk"], g, gmod, **_space(enc, n, nobj=t)); return {"haplomat": _arr(pr.haplomat), "ploidy": int(pr.ploidy), "bounds": _block_bounds(g, A["nhaploblk"])}
                 if which == "gb":
@@ -1251,7 +1319,7 @@ def _embv_groups(case):
         per = lambda v: v if isinstance(v, list) else [v] * n
         return [([i], r, g) for i, r, g in zip(range(n), per(A["nrep"]), per(A["nprogeny"]))], True
     pname = A.get("prot", "SelfCross")
-    return [(x, A["nrep"], A.get("nmating", 1) * A["nprogeny"]) for x in _embv_xmap(n, EMBV_PROT[pname], A["unique"])], pname == "TwoWayDHCross"
+    return [(x, A["nrep"], A.get("nmating", 1) * A["nprogeny"]) for x in _embv_xmap(n, EMBV_PROT[pname], A["unique"])], pname.endswith("DHCross")
 
 def _embv_check(case, o, key, tag):
     """EMBV table of a factory output against the definition on the recorded progeny"""
@@ -1341,10 +1409,18 @@ def pred_factory(case, out):
             if len(bnd) != A["nhaploblk"]: continue      # empty haplotype bins: fewer blocks than requested, trailing garbage (property C18's finding)
             hv = numpy.array([[[[sum(hap[m, i, j] * u[j, q] for j in range(a, b)) for q in range(t)] for a, b in bnd] for i in range(n)] for m in range(2)])
             if which == "ohv":
-                xm = [list(v) for v in (itertools.combinations(range(n), 2) if A["unique"] else itertools.combinations_with_replacement(range(n), 2))]
-                if o["xmap"] != xm: bad.append("%s: cross map != expected list of parent pairs" % tag); continue
-                want = numpy.array([[2 * sum(max(hv[m, i, b, q] for m in range(2) for i in pair) for b in range(len(bnd))) for q in range(t)] for pair in xm])
-                chk("ohvmat", want, "ploidy * sum over blocks of the best block value over parents and phases")
+                npar = A.get("nparent", 2)
+                xm = _xmap_rows(n, npar, A["unique"])
+                if o["xmap"] != xm: bad.append("%s: cross map != every %s index tuple of %d parents, lexicographic" % (tag, "increasing" if A["unique"] else "non-decreasing", npar)); continue
+                # the definition from the raw haplotypes: ploidy * sum over blocks of the best block value among ALL phases of ALL parents of the row
+                ohv = lambda rows: numpy.array([[2 * sum(max(hv[m, i, b, q] for m in range(2) for i in row) for b in range(len(bnd))) for q in range(t)] for row in rows])
+                want = ohv(xm)
+                what = "ploidy * sum over blocks of the best block value over ALL %d parents of the cross and their phases" % npar
+                chk("ohvmat", want, what)
+                for c in o.get("chunks", []):
+                    if not _near(_unhex(c["ohvmat"]), want): bad.append("%s: _calc_ohvmat(mem=%s) on the factory's cross map != %s" % (tag, c["mem"], what))
+                if "custom" in o and not _near(_unhex(o["custom"]), ohv(A["xmap"])):
+                    bad.append("%s: _calc_ohvmat(mem=%s) on the cross map %s != %s" % (tag, A.get("xmap_mem"), A["xmap"], what))
             else:
                 chk("haplomat", hv, "haplotype block values")
                 if which == "opv" and o["ploidy"] != 2: bad.append("%s: ploidy" % tag)
@@ -1407,6 +1483,7 @@ def emit_factory(case, out):
             if which == "embv":
                 npar = EMBV_PROT[A.get("prot", "SelfCross")]
                 parts.append("list_eqb natl_eqb %s %s" % (E.lst2(o["xmap"], E.nat), E.lst2(_embv_xmap(n, npar, A["unique"]), E.nat)))
+                parts.append("list_eqb natl_eqb %s (xmap_def %s %d %d)" % (E.lst2(o["xmap"], E.nat), E.b(A["unique"]), n, npar))
                 if npar == 1: parts.append("list_eqb natl_eqb %s (map (fun i => [i]) (seq 0 %d))" % (E.lst2(o["xmap"], E.nat), n))
                 if npar == 2: parts.append("list_eqb natl_eqb %s (if %s then pairs_unique %d else pairs_any %d)" % (E.lst2(o["xmap"], E.nat), E.b(A["unique"]), n, n))
             if A.get("homozygous") and (which == "embvmat" or A.get("prot", "SelfCross") == "SelfCross"):
@@ -1420,9 +1497,25 @@ def emit_factory(case, out):
         if len(bnd) != A["nhaploblk"]: return None
         B = "[" + "; ".join("(%d%%nat, %d%%nat)" % (a, b) for a, b in bnd) + "]"
         if which == "ohv":
-            head += "let m := ohvmat_def hap u %s %d %d %s in\n  " % (B, n, t, E.b(A["unique"]))
-            parts = ["qclose_ll %s m" % _qh(o["ohvmat"]) for o in out.values()]
-            parts += ["list_eqb natl_eqb %s (if %s then pairs_unique %d else pairs_any %d)" % (E.lst2(o["xmap"], E.nat), E.b(A["unique"]), n, n) for o in out.values()]
+            # the model's table for the requested number of parents: every row from the WHOLE parent list of the model's cross map
+            npar = A.get("nparent", 2)
+            head += "let m := ohvmat_defk hap u %s %d %d %d %s in\n  " % (B, n, t, npar, E.b(A["unique"]))
+            if npar == 2: head += "let m2 := ohvmat_def hap u %s %d %d %s in\n  " % (B, n, t, E.b(A["unique"]))
+            # identical tables (the four encodings, every chunk size) are shipped once
+            mats, maps = [], []
+            for o in out.values():
+                for mtx in [o["ohvmat"]] + [c["ohvmat"] for c in o.get("chunks", [])]:
+                    if mtx not in mats: mats.append(mtx)
+                if o["xmap"] not in maps: maps.append(o["xmap"])
+            parts = ["qclose_ll %s m" % _qh(mtx) for mtx in mats]
+            if npar == 2: parts += ["qclose_ll %s m2" % _qh(mtx) for mtx in mats]
+            parts += ["list_eqb natl_eqb %s (xmap_def %s %d %d)" % (E.lst2(xm, E.nat), E.b(A["unique"]), n, npar) for xm in maps]
+            if npar == 2: parts += ["list_eqb natl_eqb %s (if %s then pairs_unique %d else pairs_any %d)" % (E.lst2(xm, E.nat), E.b(A["unique"]), n, n) for xm in maps]
+            if A.get("xmap"):
+                customs = []
+                for o in out.values():
+                    if "custom" in o and o["custom"] not in customs: customs.append(o["custom"])
+                parts += ["qclose_ll %s (ohvmat_on hap u %s %d %d %s)" % (_qh(c), B, n, t, E.lst2(A["xmap"], E.nat)) for c in customs]
         else:
             head += "let H := haploval hap u %s %d %d in\n  " % (B, n, t)
             parts = ["list_eqb (list_eqb qclose_ll) %s H" % _qh(o["haplomat"]) for o in out.values()]
@@ -1466,7 +1559,15 @@ def run_special(case):
         import inspect
         from pybrops.breed.prot.sel.prob import trans as T
         tf = sorted(n for n, f in vars(T).items() if inspect.isfunction(f) and f.__module__ == T.__name__ and not n.startswith("_"))
-        return {"concrete": have, "factories": fm, "trans": tf}
+        # mating protocols the EMBV factories can be handed: every concrete class of pybrops.breed.prot.mate with its number of parents
+        import pkgutil, pybrops.breed.prot.mate as MP
+        prot = {}
+        for mi in pkgutil.iter_modules(MP.__path__):
+            mod = importlib.import_module(MP.__name__ + "." + mi.name)
+            for nme, c in vars(mod).items():
+                if inspect.isclass(c) and c.__module__ == mod.__name__ and not getattr(c, "__abstractmethods__", ()) and hasattr(c, "mate"):
+                    prot[nme] = int(c(rng=numpy.random.default_rng(1)).nparent)
+        return {"concrete": have, "factories": fm, "trans": tf, "mateprot": prot}
     if k == "stub":
         import importlib
         cls = getattr(importlib.import_module(P + "MultiObjectiveGenomicMatingProblem"), "MultiObjectiveGenomicSubsetMatingProblem")
@@ -1516,6 +1617,8 @@ def pred_special(case, out):
             if nme not in TRANS_DRIVEN and nme not in TRANS_SKIPPED: bad.append("function %s of sel/prob/trans.py is neither driven as a transformation nor skipped with a reason" % nme)
         for nme in list(TRANS_DRIVEN) + list(TRANS_SKIPPED):
             if nme not in out.get("trans", [nme]): bad.append("function %s of the harness table no longer exists in sel/prob/trans.py" % nme)
+        if out.get("mateprot") != EMBV_PROT:
+            bad.append("concrete mating protocols and their numbers of parents %s != table the EMBV factories are driven with %s" % (out.get("mateprot"), EMBV_PROT))
         famof = {c: fam for fam in FAMILIES for (m, c) in family_classes(fam).values()}
         for nme, methods in sorted(out.get("factories", {}).items()):
             driven = FACTORY_METHODS.get(famof.get(nme), set())
@@ -1836,7 +1939,9 @@ def describe(case, out):
                 "candidates": n if n <= 8 else "49+", "guard": case.get("guard", "-"), "obj_trans": case["eval"]["obj"][0][0], "ineq_trans": case["eval"]["ineq"][0][0]}
     if k == "factory":
         A = case["args"]
-        return {"kind": k, "factory": case["which"], "ntaxa": len(case["pop"]["labels"]), "uc_vmat": _vf_short(A.get("vf", "-")),
+        nt = len(case["pop"]["labels"])
+        return {"kind": k, "factory": case["which"], "ntaxa": nt if nt <= 8 else "9+", "uc_vmat": _vf_short(A.get("vf", "-")),
+                "nparent/unique": "-" if case["which"] not in ("ohv", "embv", "uc") else "%s/%s%s" % (A.get("nparent"), A.get("unique"), "/>1024 rows" if A.get("big") else ""),
                 "embv": "-" if case["which"] not in ("embv", "embvmat") else "%s/nrep:%s/nprogeny:%s/%s" % (
                     A.get("prot", "dh"), "array" if isinstance(A["nrep"], list) else "scalar", "array" if isinstance(A["nprogeny"], list) else "scalar",
                     "homozygous" if A.get("homozygous") else "segregating")}
@@ -1872,6 +1977,15 @@ def gen_cases(rng, tier):
         if w == "embvmat":                            # scalar and per-taxon-array forms of nrep / nprogeny on every run
             for i in range(10 if q else 60):
                 cases.append(gen_factory(rng, w, form=["array", "array", "scalar", None][i % 4]))
+            continue
+        if w in ("ohv", "embv"):                      # every number of parents, unique parents both ways
+            for npar in NPARENTS:
+                for unique in (True, False):
+                    for _ in range(1 if q else (5 if w == "ohv" else 3)):
+                        cases.append(gen_factory(rng, w, npar=npar, unique=unique))
+            if w == "ohv":                            # cross maps longer than the factories' chunk size (1024 rows)
+                pick = rng.sample(range(len(OHV_BIG)), 2) if q else range(len(OHV_BIG))
+                for b in pick: cases.append(gen_factory(rng, w, big=b))
             continue
         for _ in range(6 if q else 40):
             cases.append(gen_factory(rng, w))
